@@ -31,6 +31,7 @@ type VC struct {
 	Errors      []string
 	noImmutable bool
 	ghostDecl   map[string]bool
+	qaxSeen     map[string]bool // heap-typing axioms already asserted (see SpecEnv.quant)
 	axiomsDone  bool
 	allocs      []Term
 	callCount   map[string]int
@@ -48,6 +49,7 @@ type VC struct {
 type Goal struct {
 	Reach Term
 	Cond  Term
+	Where string // source position of the program point, where known (diagnostics only)
 }
 
 type Obligation struct {
@@ -766,6 +768,25 @@ func (fr *Frame) enterLoop(li *loopInfo, reach Term) {
 		phis = append(phis, phi)
 		entry[phi] = fr.evalPhi(phi, b, true)
 	}
+	// ghost snapshots of the entry state ("loop K let")
+	if fr.c != nil {
+		for _, ll := range fr.c.LoopLets[li.ordinal] {
+			fr.subst = entry
+			env := fr.specEnvHere()
+			env.idx = len(phis)
+			v := env.eval(ll.Cl.E)
+			fr.subst = nil
+			sn := &Val{T: vc.S.Define("ghost."+ll.Name, vc.sortOfVal(v), vc.term(v)), Typ: v.Typ}
+			if fr.ghosts == nil {
+				fr.ghosts = map[string]*Val{}
+			}
+			fr.ghosts[ll.Name] = sn
+			if vc.letTypes == nil {
+				vc.letTypes = map[string]*Val{}
+			}
+			vc.letTypes[ll.Name] = sn
+		}
+	}
 	// inv-init
 	for k, inv := range invs {
 		fr.subst = entry
@@ -774,7 +795,7 @@ func (fr *Frame) enterLoop(li *loopInfo, reach Term) {
 		c := env.evalBool(inv.E)
 		fr.subst = nil
 		vc.addObl(&Obligation{Kind: "inv-init", Anchor: fmt.Sprintf("loop%d#%d", li.ordinal, k), Props: fr.c.ClauseProps(inv), Desc: inv.Src, File: inv.File, Line: inv.Line,
-			Goals: []Goal{{reach, c}}, Mark: vc.S.Mark()})
+			Goals: []Goal{{Reach: reach, Cond: c}}, Mark: vc.S.Mark()})
 	}
 	// havoc: heap names written in loop
 	mod, all := fr.loopWrites(li)
@@ -840,6 +861,25 @@ func (fr *Frame) loopWrites(li *loopInfo) (map[string]bool, bool) {
 				}
 				for _, n := range names {
 					mod[n] = true
+				}
+				// ghost variables the enclosing contract assigns at (or after) this call
+				if fr.c != nil {
+					cc := x.Common()
+					cn := calleeName(cc, cc.StaticCallee())
+					for _, ac := range fr.c.AtCalls {
+						if ac.Kind != "set" {
+							continue
+						}
+						pat := ac.Callee
+						if i := strings.LastIndex(pat, "#"); i > 0 {
+							pat = pat[:i]
+						}
+						if calleeMatches(cn, pat) {
+							if gv, ok := fr.vc.P.CS.GhostVars[ac.Let]; ok {
+								mod[fr.vc.ghostVarHeap(gv)] = true
+							}
+						}
+					}
 				}
 			case *ssa.Alloc, *ssa.MakeSlice, *ssa.MakeMap, *ssa.MakeInterface:
 				mod["$alloc"] = true
@@ -966,7 +1006,7 @@ func (fr *Frame) closeLoop(li *loopInfo, from *ssa.BasicBlock, edge Term) {
 		c := env.evalBool(inv.E)
 		fr.subst = nil
 		vc.addObl(&Obligation{Kind: "inv-step", Anchor: fmt.Sprintf("loop%d#%d", li.ordinal, k), Props: fr.c.ClauseProps(inv), Desc: inv.Src, File: inv.File, Line: inv.Line,
-			Goals: []Goal{{edge, c}}, Mark: vc.S.Mark()})
+			Goals: []Goal{{Reach: edge, Cond: c}}, Mark: vc.S.Mark()})
 	}
 }
 
